@@ -63,7 +63,7 @@ PROP = dict(
     cases=dict(quick=1500, thorough=9000),
     level="proof",
     harness_timeout=2400,
-    coqc_timeout=1500,
+    coqc_timeout=6000,
     rule="Rcb (3/4) and Rib (1/4, model run on the rotated points recorded by the rib_points hook) on 2-D/3-D point sets "
          "from 10 families (uniform, clustered, collinear, coincident, lattice, one outlier, duplicates, adjacent floats, "
          "near-duplicates far from the rest, huge magnitudes) on a dyadic grid or as arbitrary finite f64, 6 weight families "
@@ -74,8 +74,8 @@ PROP = dict(
     class_names={0: "Ok", 1: "error", 2: "panic", 3: "hang"},
     trusted_base=[
         "axioms: none for the tree-structure theorems (C03_rcb_bisect_tree, C03_generic, corollaries, reorder spec, checker soundness, "
-        "generic termination/totality: closed under the global context); C03_search_terminates and C03_rcb_total (binary32 termination "
-        "and totality, via Proofs/F32Flocq.v) use the real-number axioms of Coq's standard library through Flocq 4.1: "
+        "generic termination/totality: closed under the global context); C03_search_terminates, C03_rcb_total and C03_box_ok32_holds (binary32 termination, "
+        "totality and the enclosing root box, via Proofs/F32Flocq.v and Proofs/RcbBox.v) use the real-number axioms of Coq's standard library through Flocq 4.1: "
         "ClassicalDedekindReals.sig_forall_dec, ClassicalDedekindReals.sig_not_dec, "
         "FunctionalExtensionality.functional_extensionality_dep, Classical_Prop.classic",
         "Flocq 4.1 (BinarySingleNaN) as the link between Coq's SpecFloat operations and the real numbers",
@@ -88,9 +88,10 @@ PROP = dict(
         "weights are non-negative i64 (or integer-valued f64) whose sum does not overflow",
         "the run executes rcb_core with the trie-based stores scatter_fast, proved equal to the sequential stores (scatter_fast_eq, Proofs/RcbProofs.v)",
         "rayon fold/reduce call the closures on a split tree of the index range; join runs both closures",
-        "C03_rcb_total has the decidable premise box_ok32 (the root box has finite canonical bounds enclosing the binary32 coordinates), "
-        "evaluated on every in-contract case by Run/RunC03.v (a false counts as a correspondence failure); its fuel bound 2^33 is a "
-        "termination bound, not a tight one (the runs use fuel 2000 and never met OutOfFuel)",
+        "C03_rcb_total holds on the narrow contract (D finite f64 coordinates per point, canonical binary64 values whose binary32 images are "
+        "finite); the former premise box_ok32 is proved from it (C03_box_ok32_holds, monotone f64->f32 cast, Flocq) and still evaluated on "
+        "every in-contract case by the run glue as a cross-check; its fuel bound 2^33 is a termination bound, not a tight one (the runs use "
+        "fuel 2000 and never met OutOfFuel)",
         "the C03 theorems require the binary32 image of every coordinate not to be NaN (true of every finite f64; checked per case by the run glue)",
     ],
 )
